@@ -40,7 +40,15 @@ type Item struct {
 	SchemaN  int
 	Decls    []string // extra ghost declarations (helper funcs) attached to package
 	Loops    []LoopSpec
+	Ghosts   []GhostStmt
 	CalleeOf bool
+}
+
+type GhostStmt struct {
+	Pattern string
+	Nth     int
+	After   bool
+	Stmt    string
 }
 
 type LoopSpec struct {
@@ -418,6 +426,37 @@ func ParseContractFile(repo, rel string) (*ContractFile, error) {
 					} else {
 						it.Options[strings.TrimSpace(rest)] = "true"
 					}
+				case "ghost":
+					// ghost after|before "pattern" [#n] :: stmt
+					g := GhostStmt{}
+					r := rest
+					switch {
+					case strings.HasPrefix(r, "after "):
+						g.After = true
+						r = strings.TrimSpace(strings.TrimPrefix(r, "after "))
+					case strings.HasPrefix(r, "before "):
+						r = strings.TrimSpace(strings.TrimPrefix(r, "before "))
+					default:
+						return nil, fmt.Errorf("%s:%d: ghost needs after|before", rel, rl.line)
+					}
+					if !strings.HasPrefix(r, "\"") {
+						return nil, fmt.Errorf("%s:%d: ghost needs a quoted anchor", rel, rl.line)
+					}
+					e := strings.Index(r[1:], "\"")
+					if e < 0 {
+						return nil, fmt.Errorf("%s:%d: unterminated anchor", rel, rl.line)
+					}
+					g.Pattern = r[1 : e+1]
+					r = strings.TrimSpace(r[e+2:])
+					if strings.HasPrefix(r, "#") {
+						fmt.Sscanf(r, "#%d", &g.Nth)
+						if i := strings.Index(r, "::"); i >= 0 {
+							r = r[i:]
+						}
+					}
+					r = strings.TrimSpace(strings.TrimPrefix(strings.TrimSpace(r), "::"))
+					g.Stmt = r
+					it.Ghosts = append(it.Ghosts, g)
 				case "loop":
 					// loop K invariant E | loop K decreases E
 					f := strings.Fields(rest)
